@@ -77,7 +77,9 @@ class FabricRun(object):
       for j in range(q.get('prefill', 0)):
         # equal contents in distinct queues: the same pre-filled marker object
         inner.append(self.sc.get('prefill_item', 'old'))
-    self.fabric = ao.ActiveFabric()
+    if not self.sc.get('lazy_fabric'):
+      self.fabric = ao.ActiveFabric()
+    # else: nobody has asked for the fabric yet; every client asks for it itself when it begins
 
   def monitor(self, sim):
     for role in ('fabric.fifo', 'fabric.lifo'):
@@ -140,6 +142,10 @@ class FabricRun(object):
     ev = seams.mods['event']
     sim = self.sim
     f = self.fabric
+    if f is None:
+      f = seams.mods['activeobject'].ActiveFabric()
+      if self.fabric is None:
+        self.fabric = f
     for i, op in enumerate(script):
       kind = op[0]
       b = sim.record('fab', 'op', 'begin', (k, i, kind))
